@@ -7,9 +7,10 @@ import json, os, shutil, subprocess, sys, tempfile, time
 pid, i, tests = sys.argv[1], sys.argv[2], sys.argv[3]
 checks = sys.argv[4:] or [pid]
 tier = os.environ.get("SEED_TIER", "quick")
-src = f"/tmp/seed_{pid}/_seed"
+rnd = os.environ.get("SEED_ROUND", "")
+src = f"/tmp/seed{rnd}_{pid}/_seed"
 root = os.path.dirname(os.path.dirname(os.path.abspath(__file__)))
-dst = os.path.join(root, "seeded", f"{pid}-{i}")
+dst = os.path.join(root, "seeded", f"{pid}-{'r' + rnd + '-' if rnd else ''}{i}")
 wt = tempfile.mkdtemp(prefix="molgri_seedchk_")
 def sh(cmd, **kw):
     return subprocess.run(cmd, shell=True, capture_output=True, text=True, **kw)
